@@ -239,4 +239,35 @@ contract target2targetGroup
   loop 2 invariant len(ret) == idx1 && fresh(ret) && ls != nil && fresh(ls)
   loop 2 invariant[C11] forall k in 0..idx1 :: (routedGroup(ret[k], job, ts[k]) && fresh(ret[k]) && allocated(ret[k]) && fresh(ret[k].Labels) && allocated(ret[k].Labels) && fresh(ret[k].Targets) && allocated(ret[k].Targets[0]) && fresh(ret[k].Targets[0]))
   loop 2 invariant forall k in 0..idx1 :: ret[k].Labels != ls
+
+// ---------- the load a shard reports (C14) and its idle-since instant (C10) ----------
+// Prometheus' own head-series count as returned by the injected getter
+ghost global gPromHead int
+contract field Service.getHeadSeries()
+  ensures result1 == nil ==> result0 == gPromHead
+  modifies nothing
+
+// "the load a shard reports is the sum of these over its targets - head series never below that sum nor below
+// Prometheus' own head count"; "the shard reports being idle since the moment its assignment became empty"
+pred reportOf(res) = asptr(res.Data, "tkestack.io/kvass/pkg/shard.RuntimeInfo")
+contract Service.runtimeInfo
+  requires s != nil && s.getHeadSeries != nil && s.targetManager != nil && s.cfgManager != nil && s.cfgManager.currentConfig != nil
+  requires forall h, st in s.targetManager.targets.Status :: st != nil
+  ensures result != nil
+  ensures[C14] @report_only_with_the_head_count (result.Status == "success") == (defined(err) && err == nil)
+  ensures result.Status == "success" ==> isptr(result.Data, "tkestack.io/kvass/pkg/shard.RuntimeInfo") && reportOf(result) != nil
+  // (targets is the snapshot taken by TargetsInfo(): the same status map as s.targetManager.targets.Status)
+  ensures !defined(targets) ==> result.Status != "success"
+  ensures defined(targets) ==> targets.Status == s.targetManager.targets.Status
+  ensures[C14] @process_series_is_the_sum_of_total_series (defined(targets) && result.Status == "success") ==>
+        reportOf(result).ProcessSeries == sumover(targets.Status, h, targets.Status[h].TotalSeries)
+  ensures[C14] @head_series_is_the_larger_of_own_sum_and_prometheus_count (defined(targets) && result.Status == "success") ==>
+        reportOf(result).HeadSeries == ite(gPromHead < sumover(targets.Status, h, targets.Status[h].Series), sumover(targets.Status, h, targets.Status[h].Series), gPromHead)
+  ensures[C10] @idle_since_is_reported result.Status == "success" ==> reportOf(result).IdleStartAt == s.targetManager.targets.IdleAt
+  ensures[C08] @own_config_hash_is_reported result.Status == "success" ==> reportOf(result).ConfigHash == s.cfgManager.currentConfig.ConfigHash
+  modifies tkestack.io/kvass/pkg/api.Result.* at {}, tkestack.io/kvass/pkg/shard.RuntimeInfo.* at {}
+  // lemma (checked, then used): when the loop is done the visited keys are exactly the keys of the status map
+  atreturn assert @all_entries_visited defined(visited1) ==> visited1 == keys(targets.Status)
+  loop 1 invariant forall h in visited1 :: h in targets.Status
+  loop 1 invariant min == sumover(visited1, h, targets.Status[h].Series) && total == sumover(visited1, h, targets.Status[h].TotalSeries)
 @*/
